@@ -142,7 +142,7 @@ func c20DottedNames(c *core.Ctx) {
 }
 
 func c20EndToEnd(c *core.Ctx) {
-	nh := c.N(48, 600)
+	nh := c.N(120, 600)
 	for idx := 0; idx < nh; idx++ {
 		if !c.Mine(idx) {
 			continue
